@@ -1,0 +1,58 @@
+//go:build verif
+
+package v1
+
+import (
+	"encoding/asn1"
+
+	"github.com/wokdav/gopki/generator/cert"
+	"github.com/wokdav/gopki/generator/config"
+)
+
+// Verification hooks (build tag verif only).
+
+func VerifReadRawString(s string) ([]byte, error) { return readRawString(s) }
+
+func VerifToTimeStruct(from, until, duration string) (config.CertificateValidity, error) {
+	return CertValidity{From: from, Until: until, Duration: duration}.toTimeStruct()
+}
+
+type VerifTablesT struct {
+	KeyAlgorithms map[string]cert.KeyAlgorithm
+	SigAlgorithms map[string]cert.SignatureAlgorithm
+	DateForm      string
+	BinaryPrefix  string
+	EmptyPrefix   string
+	NullPrefix    string
+	DefaultKey    cert.KeyAlgorithm
+	DefaultSigEc  cert.SignatureAlgorithm
+	DefaultSigRsa cert.SignatureAlgorithm
+	DefaultYears  int
+}
+
+func VerifTables() VerifTablesT {
+	t := VerifTablesT{
+		KeyAlgorithms: map[string]cert.KeyAlgorithm{},
+		SigAlgorithms: map[string]cert.SignatureAlgorithm{},
+		DateForm:      dateForm, BinaryPrefix: binaryPrefix, EmptyPrefix: emptyPrefix, NullPrefix: nullPrefix,
+		DefaultKey: defaultKeyAlgorithm, DefaultSigEc: defaulSignatureAlgorithmEc,
+		DefaultSigRsa: defaulSignatureAlgorithmRsa, DefaultYears: DefaultValidityYears,
+	}
+	for k, v := range keyAlgorithms {
+		t.KeyAlgorithms[k] = v
+	}
+	for k, v := range sigAlgorithms {
+		t.SigAlgorithms[k] = v
+	}
+	return t
+}
+
+func VerifGeneralNameConvert(typ, name string) (cert.GeneralName, error) {
+	return GeneralName{Type: typ, Name: name}.convert()
+}
+
+func VerifExtKeyUsageOid(s string) (asn1.ObjectIdentifier, error) { return extKeyUsageOid(s) }
+
+func VerifParseExtensions(e []AnyExtension) ([]config.ExtensionConfig, error) {
+	return parseExtensions(e)
+}
